@@ -1417,7 +1417,8 @@ theorem sim (s : Stmt) : ∀ (cur : Nat) (lab : Option Label) (ls : List Label) 
       exact ⟨by rw [h3, List.append_nil], h4, by rw [h5, h2], by rw [h6, h1],
         fun x hx => h7 x (fun hxe => hx (by rw [hxe]; exact hidI)), fun _ => h8⟩
     cases k with
-    | forin => exact absurd rfl hk
+    | forin => exact absurd rfl hk.1
+    | forlet => exact absurd rfl hk.2
     | while_ =>
       simp only [gen] at hnop hC
       rw [codeAt_append, codeAt_append] at hC
